@@ -21,6 +21,17 @@ def gen_scenario(rng: random.Random, sid, idempotent=None, n_faults=None, **over
     for t in range(ntasks):
         items = []
         for _ in range(rng.randrange(2, 9)):
+            if rng.random() < 0.12:
+                # explicit batch API with a user-held (open) builder, sometimes appended to afterwards
+                k = rng.choice([1, 2, 3])
+                it = {"send_batch": list(range(rid, rid + k)), "p": rng.randrange(partitions),
+                      "sleep": rng.choice([0, 0.001, 0.05]), "yields": rng.choice([0, 1, 2, 3, 4])}
+                rid += k
+                if rng.random() < 0.6:
+                    it["late"] = rid
+                    rid += 1
+                items.append(it)
+                continue
             items.append({"rid": rid, "p": rng.randrange(partitions),
                           "sleep": rng.choice([0, 0, 0.001, 0.01, 0.1, 0.5]),
                           "ts": rng.choice([None, None, 5000 + rng.randrange(100000)]),
